@@ -77,3 +77,17 @@ Definition rule_link_okb (rule : option triple) : bool :=
   | None => true
   end.
 
+(** the TEMPLATE-side hypotheses of the default-mode capstones as ONE boolean of the template as written (evaluated on every
+    correspondence case, by the model and — independently — by the harness): well formed, bonds join its atoms, every atom
+    has the same element on both sides, and [tpl_condition] in decidable form: with R = the explicit hydrogens that have a
+    non-hydrogen neighbour on both sides (the ones rule preparation strips) and K = the non-hydrogen atoms, every h in R has
+    as many product-side as reactant-side bonds to K, and the atoms outside R keep the total charge *)
+Definition same_elb (tpl : its) : bool := forallb (fun p : N * inode => N.eqb (a_el (iH (snd p))) (a_el (iG (snd p)))) (gnodes tpl).
+Definition removedR (tpl : its) : list N :=
+  filter (fun h => is_H_i tpl h && heavy_nbr (side0 iG eG tpl) h && heavy_nbr (side0 iH eH tpl) h) (node_ids tpl).
+Definition keptK (tpl : its) : list N := filter (fun k => negb (is_H_i tpl k)) (node_ids tpl).
+Definition tpl_condb (tpl : its) : bool :=
+  forallb (fun h => Z.eqb (countZ (fun k => bonded eH tpl k h) (keptK tpl)) (countZ (fun k => bonded eG tpl k h) (keptK tpl))) (removedR tpl)
+  && Z.eqb (sumL dQ (filter (keepn (removedR tpl)) (gnodes tpl))) 0.
+Definition default_tpl_okb (tpl : its) : bool := wf_rcb tpl && edges_closedb tpl && same_elb tpl && tpl_condb tpl.
+
